@@ -63,7 +63,9 @@ def pair_cases(draw, max_leaves, k=2, full=False):
                 rec["kind"] = "nni"
     return {"spec": sl["spec"], "lenpat": sl["lenpat"], "rooted": rooted, "others": others,
             # pairs sub-check: some internal nodes / the seed carry taxa of their own (distances speak about leaf taxa)
-            "inner": draw(shapes.inner_taxa_picks())}
+            "inner": draw(shapes.inner_taxa_picks()),
+            # rooted trees only: lengths on the seed edge and on the chain of unifurcations above the first branching
+            "root_chain": draw(st.one_of(st.none(), st.none(), st.lists(st.sampled_from([0.0, 0.5, 1.0, 7.0]), min_size=1, max_size=3)))}
 
 
 @st.composite
@@ -73,6 +75,7 @@ def edit_cases(draw, max_leaves):
     c["edit_kinds"] = draw(st.lists(st.sampled_from(["move", "move", "prune_leaf", "flip_rooting"]), min_size=4, max_size=4))
     c["followup_updated"] = draw(st.booleans())
     c["first"] = draw(st.integers(0, 9))
+    c["root_chain"] = None
     return c
 
 
@@ -231,12 +234,21 @@ def build_pair(case):
     rts = [rt1]
     for rec in case["others"]:
         rts.append(derive(rt1, rec, rooted, case["lenpat"]))
+    root_chain = case.get("root_chain")
     for rt in rts:
-        # no length on the root edge, nor on edges above the first branching (they are 'root edges' once suppressed)
+        # unrooted trees: no length on the root edge, nor on edges above the first branching (they are 'root edges'
+        # once suppressed and belong to no split).  Rooted trees: the root cluster is a cluster like any other, its
+        # length is the sum over the chain of edges above the first branching, and cases may put lengths there.
         cl = rt.clusters()
         full = cl[rt.root]
-        for i in rt.nodes():
-            if cl[i] == full:
+        chain = [j for j in rt.preorder() if cl[j] == full]
+        for k, i in enumerate(chain):
+            if rooted and root_chain and case["lenpat"] not in ("none",):
+                # the same total for every re-drawing of a tree, whatever the number of unifurcations in its chain:
+                # all of it on the seed edge or all of it on the first branching node, zero on the rest
+                holder = chain[0] if len(root_chain) % 2 else chain[-1]
+                rt.length[i] = root_chain[0] if i == holder else 0.0
+            else:
                 rt.length[i] = None
     trees = [shapes.build_tree(spec_with_lengths(rt), ns, taxa, is_rooted=rooted_flag) for rt in rts]
     return rooted_flag, rooted, rts, trees, ns, taxa
